@@ -4,7 +4,10 @@ import (
 	"encoding/json"
 	"fmt"
 	"go/ast"
+	"os"
 	"strings"
+
+	"github.com/go-toolsmith/astcast"
 
 	"github.com/go-critic/go-critic/linter"
 	"verif.local/gcsim/simapi"
@@ -120,8 +123,12 @@ func (w *Worker) runC05Frame(rc *simapi.RunConfig) *simapi.RunResult {
 	var ex c05Extra
 	json.Unmarshal(rc.Extra, &ex)
 	wl := w.parseWorkload(rc.Args)
-	ref, _ := w.refForVisits(wl, rc.Visits) // fills the table; looked up per checker below
-	_ = ref
+	w.refDirty = nil
+	w.refForVisits(wl, rc.Visits) // fills the table; looked up per checker below
+	for _, d := range w.refDirty {
+		res.Violations = append(res.Violations, simapi.Violation{Class: d[0], Identity: d[0] + ":" + d[1],
+			Detail: fmt.Sprintf("%s, run alone by a fresh instance on %v (reference run), changed process-wide shared state (%s)", d[1], rc.Visits, d[0])})
+	}
 	simrt.SetMapPolicy(simrt.MapCanonical, 0)
 	w.restoreParams()
 	defer w.restoreParams()
@@ -239,6 +246,9 @@ func (w *Worker) runC05Frame(rc *simapi.RunConfig) *simapi.RunResult {
 				}
 			}
 		}
+	}
+	if os.Getenv("GCSIM_DEBUG") != "" {
+		res.Notes = append(res.Notes, fmt.Sprintf("NilBasicLit=%+v fp=%x", *astcast.NilBasicLit, fpSentinels()))
 	}
 	res.NonTrivial = len(checkers) >= 2 && res.Stats["diagnostics"] >= 1
 	res.Stats["checkers"] = int64(len(checkers))
